@@ -24,7 +24,7 @@ func init() {
 				"of every fallible step that precedes it in its function, and every such step's error is checked; addRuleList keeps " +
 				"the previous list on each error edge. R4: the index conversion skips invalid entries and keeps converting the rest.",
 			NotCovered: "behaviour of the HTTP client under each fault kind; atomicity of renameio itself (trusted); disk-full and fsync semantics.",
-			Rules: map[string]string{"C13-RC": "class rules (error chains, shadowed results, character classes, crossed arguments, pool constructors, array pools, loop completeness, loop-carried buffers, replacing setters, complete clones, Grow arithmetic, pooled-buffer escape, sorted searches, fresh decode targets, per-iteration objects, whole-message copies, codec guards) over the packages this property rests on", "C13-R13": "loadIndex only sorts the decoded entries; none is removed before validation", "C13-R12": "in-place list refresh: engine swap and cache clear under one write lock; same-typed arguments (acceptStale vs cache switches) are not crossed", "C13-R11": "the periodic refresh worker: the loop ends only on shutdown, refreshes on every uninterrupted tick, survives a failed refresh; shutdown refresh exactly when configured; constructor field map", "C13-R9": "an index key is converted to filter.ID only where the same field is validated by filter.NewID in the package", "C13-R10": "components with RefreshInitial are started through it in package cmd, never through their periodic Refresh", "C13-R1": "download / replace protocol tables", "C13-R2": "who may mutate files",
+			Rules: map[string]string{"C13-R14": "builder wiring of the hash-prefix filters: own ID, cache file, storage and URL each (shared with C11-R11)", "C13-RC": "class rules (error chains, shadowed results, character classes, crossed arguments, pool constructors, array pools, loop completeness, loop-carried buffers, replacing setters, complete clones, Grow arithmetic, pooled-buffer escape, sorted searches, fresh decode targets, per-iteration objects, whole-message copies, codec guards) over the packages this property rests on", "C13-R13": "loadIndex only sorts the decoded entries; none is removed before validation", "C13-R12": "in-place list refresh: engine swap and cache clear under one write lock; same-typed arguments (acceptStale vs cache switches) are not crossed", "C13-R11": "the periodic refresh worker: the loop ends only on shutdown, refreshes on every uninterrupted tick, survives a failed refresh; shutdown refresh exactly when configured; constructor field map", "C13-R9": "an index key is converted to filter.ID only where the same field is validated by filter.NewID in the package", "C13-R10": "components with RefreshInitial are started through it in package cmd, never through their periodic Refresh", "C13-R1": "download / replace protocol tables", "C13-R2": "who may mutate files",
 				"C13-R3": "commit only after success", "C13-R4": "invalid index entries skipped, not aborting",
 				"C13-R7": "exact HTTP status check; only the size-limited reader that fails at the limit is used on a list's path",
 				"C13-R6": "blocked-service index: any invalid entry rejects the whole update",
@@ -235,6 +235,9 @@ func runC13(c *an.Ctx) {
 	c.Inf("C13-R12", "crossed arguments", token.NoPos, "%d call sites with two same-typed named arguments examined in the filter packages and cmd", sharedSwappedArgs(c, "C13-R12", "filter", "cmd."))
 	c.Floor("C13-R13", 1)
 	c13IndexEntries(c)
+	// ---- R14: each hash-prefix filter has its own cache file (shared with C11-R11)
+	c.Floor("C13-R14", 9)
+	c.Borrow("C13-R14", runC11, func(o an.Obligation) bool { return o.Rule == "C11-R11" })
 	// ---- R10: the storage (and every other component with a RefreshInitial) is started from what is cached
 	if n := sharedInitialRefresh(c, "C13-R10"); n < 4 {
 		c.Und("C13-R10", "start-up refreshes", token.NoPos, "only %d RefreshInitial calls found in package cmd (expected the rule-list storage and the three hash-prefix filters)", n)
